@@ -440,16 +440,22 @@ def gen_case(rng, tier, flavor=None):
         g = {"id": len(defs), "dir": r2 + ["s"], "short": "Own", "maj": 1, "min": 0, "port": None, "ext": "dsdl", "bad": False, "body": [["plain", 8]]}
         defs.append(g)
     if flavor == "twins":
-        o = rng.choice(defs)
-        same = rng.random() < 0.6
-        c = dict(o, id=len(defs), body=list(o["body"]) if same else list(o["body"]) + [["plain", 8]])
-        if o["ext"] == "dsdl" and rng.random() < 0.5:
-            c["ext"] = "uavcan"
-        else:
-            c["port"] = 7000 + rng.randrange(0, 100)
-        defs.append(c)
+        defs.append(make_twin(rng, defs, rng.choice(defs), rng.random() < 0.6))
     qs = all_dirs_queries(rng, roots, defs)
     return {"files": defs, "queries": qs, "flavor": flavor, "dirs": roots}
+
+
+def make_twin(rng, defs, o, same):
+    """a second file with the directory, short name and version of o (other suffix, or a port-ID prefix when no other
+    minor version of that name exists: which of two twins with different port-IDs survives is the iteration order of
+    a set and would make the minor-version port rule flip)"""
+    c = dict(o, id=len(defs), body=[list(x) for x in o["body"]] if same else [list(x) for x in o["body"]] + [["plain", 8]])
+    alone = not any(x is not o and (x["dir"], x["short"], x["maj"]) == (o["dir"], o["short"], o["maj"]) for x in defs)
+    if alone and o.get("port") is None and rng.random() < 0.5:
+        c["port"] = 7000 + rng.randrange(0, 100)
+    else:
+        c["ext"] = "uavcan" if o["ext"] == "dsdl" else "dsdl"
+    return c
 
 
 def mkfile(i, d, short, maj, mnr, body, ext="dsdl", port=None):
